@@ -33,6 +33,25 @@ def atom(c):
         if c.op == "un" and c.opname == "Not":
             c, pol = c.x, not pol
             continue
+        if c.op == "if":
+            # a conditional expression in condition position is a boolean combination of its parts
+            t_, o_ = c.then, c.other
+            isc = lambda v: v.op == "const" and type(v.value) is bool
+            nt = lambda v: T("un", v.node, v.mod, opname="Not", x=v)
+            if isc(t_) and isc(o_):
+                if t_.value == o_.value:
+                    c = t_
+                    break
+                c, pol = c.cond, (pol if t_.value else not pol)
+                continue
+            if isc(o_):
+                c = T("bool", c.node, c.mod, opname="or", vals=[nt(c.cond), t_]) if o_.value else T("bool", c.node, c.mod, opname="and", vals=[c.cond, t_])
+                continue
+            if isc(t_):
+                c = T("bool", c.node, c.mod, opname="or", vals=[c.cond, o_]) if t_.value else T("bool", c.node, c.mod, opname="and", vals=[nt(c.cond), o_])
+                continue
+            c = T("bool", c.node, c.mod, opname="or", vals=[T("bool", c.node, c.mod, opname="and", vals=[c.cond, t_]), T("bool", c.node, c.mod, opname="and", vals=[nt(c.cond), o_])])
+            continue
         if c.op == "call" and c.fn.op == "ref" and c.fn.ref.qual == "builtins.bool" and len(c.args) == 1 and not c.kw:
             c = c.args[0]
             continue
@@ -65,6 +84,25 @@ def atom(c):
                 continue
         break
     return c, pol
+
+
+def pos_form(c, neg=False):
+    """negation normal form with negations folded into the comparison operators: `not (a is None or a >= 0)` becomes
+    `a is not None and a < 0`; truthiness atoms keep an explicit `not`"""
+    if c.op == "seq":
+        return pos_form(c.value, neg)
+    if c.op == "un" and c.opname == "Not":
+        return pos_form(c.x, not neg)
+    if c.op == "bool":
+        opn = c.opname
+        if neg:
+            opn = "or" if opn == "and" else "and"
+        return T("bool", c.node, c.mod, opname=opn, vals=[pos_form(v, neg) for v in c.vals])
+    if c.op == "cmp" and neg and c.opname in NEG:
+        return T("cmp", c.node, c.mod, opname=NEG[c.opname], l=c.l, r=c.r)
+    if neg:
+        return T("un", c.node, c.mod, opname="Not", x=c)
+    return c
 
 
 def split_fact(c, pol):
@@ -340,6 +378,8 @@ def truth(cond, decide):
             r = False if any(v is False for v in vals) else (True if all(v is True for v in vals) else None)
         else:
             r = True if any(v is True for v in vals) else (False if all(v is False for v in vals) else None)
+    elif a.op == "const" and type(a.value) in (bool, int, type(None)):
+        r = bool(a.value)
     else:
         r = decide(a)
     if r is None:
